@@ -96,7 +96,7 @@ def main(tier):
     def runone(label, data, typed, inv, d, timeout=20):
         write(d + '/t.as', data)
         cmd = base + (lib if typed else []) + (['-Mno-emax'] if inv == 'emax' else []) + ['t.as']
-        return cmd, run(cmd, cwd=d, timeout=timeout, merge=True, norand=False)
+        return cmd, run(cmd, cwd=d, timeout=timeout, merge=True, norand=False, mem_mb=4000)
 
     def work(ci):
         d = mkdir('%s/w%d' % (ck.work, ci))
@@ -116,6 +116,12 @@ def main(tier):
                 else:
                     stats['ok0'] += 1
             problem = None
+            if cls == 'signal' and r.sig == 9:
+                # killed from outside (memory pressure on a loaded machine): run it again before believing it
+                cmd, r = runone(label, data, typed, inv, d, timeout=60)
+                cls, det = faults.classify(r)
+                t = r.text()
+                printed = faults.error_printed(t)
             if cls == 'hang':
                 cmd, r2 = runone(label, data, typed, inv, d, timeout=60)     # re-run alone with a longer limit before calling it a hang
                 if r2.timeout:
